@@ -29,7 +29,8 @@ def main(argv=None):
     ck = Check("C04", argv)
     common.setup_impl_env()
     ck.run_witnesses(["w05", "w06", "w09", "w16"])
-    ck.prove(extra_targets=tieb_stores.STORES[0], gen_kernels=tieb_stores.STORES[1])   # ties A + B
+    # the histories also run through Datastore / Bucket: theorems of that layer (Props/C04ds.v) and its tie B
+    ck.prove(extra_targets=["Props/C04ds.v"] + tieb_stores.STORES_DS[0], gen_kernels=tieb_stores.STORES_DS[1])   # ties A + B
     have_driver = ck.driver("ExC02ds")     # ExC02 + the Datastore / Bucket layer (case tag 30)
 
     # every history is a 4-tuple (symbolic ops, universe, None, layer); layer = calls on the storage object, or
